@@ -33,8 +33,8 @@ pub fn check_cfg(id: &str, tier: &str) -> Option<CheckCfg> {
         "C06" => CheckCfg { id: id.into(), runs: scale(6000, 600_000), max_stmts: ms, workloads: vec!["gen", "corpus", "abi"], backends: vec![X86], check_heap: false, hostile: true },
         "C07" => CheckCfg { id: id.into(), runs: scale(6000, 600_000), max_stmts: ms, workloads: vec!["gen", "corpus", "abi"], backends: vec![A64], check_heap: false, hostile: true },
         "C08" => CheckCfg { id: id.into(), runs: scale(5000, 500_000), max_stmts: ms, workloads: vec!["gen-rv", "corpus"], backends: vec![Rv, X86, A64], check_heap: false, hostile: true },
-        "C09" => CheckCfg { id: id.into(), runs: scale(5000, 400_000), max_stmts: ms, workloads: vec!["gen", "gen-rv", "loop", "corpus"], backends: vec![X86, A64, Rv], check_heap: true, hostile: false },
-        "C10" => CheckCfg { id: id.into(), runs: scale(2000, 200_000), max_stmts: ms, workloads: vec!["loop", "gen"], backends: vec![X86, A64, Rv], check_heap: true, hostile: false },
+        "C09" => CheckCfg { id: id.into(), runs: scale(5000, 400_000), max_stmts: ms, workloads: vec!["gen", "gen-rv", "loop", "loop2", "corpus"], backends: vec![X86, A64, Rv], check_heap: true, hostile: false },
+        "C10" => CheckCfg { id: id.into(), runs: scale(2000, 200_000), max_stmts: ms, workloads: vec!["loop2", "loop", "gen"], backends: vec![X86, A64, Rv], check_heap: true, hostile: false },
         "C11" => CheckCfg { id: id.into(), runs: scale(12000, 1_500_000), max_stmts: ms, workloads: vec!["subst"], backends: vec![X86, A64, Rv], check_heap: true, hostile: false },
         "C13" => CheckCfg { id: id.into(), runs: scale(6000, 600_000), max_stmts: ms, workloads: vec!["abi", "gen"], backends: vec![X86, A64], check_heap: false, hostile: true },
         _ => return None,
@@ -105,7 +105,15 @@ pub fn worker(id: &str, tier: &str, seed: u64, w: u64, n: u64) -> i32 {
         };
         let mut prng = Rng::keyed(seed, i, "plans");
         let keys = Rng::keyed(seed, i, "hashkeys").next();
-        let r = workloads::run(wl, &sc, &rcfg, &mut prng, keys, &mut sum.stats);
+        let r = match std::panic::catch_unwind(std::panic::AssertUnwindSafe(|| workloads::run(wl, &sc, &rcfg, &mut prng, keys, &mut sum.stats))) {
+            Ok(r) => r,
+            Err(e) => {
+                sum.harness = Some(format!("run {i} ({wl}): simulator panicked: {}", crate::seam::panic_msg(&e)));
+                let mut o = stdout.lock();
+                let _ = writeln!(o, "{}", serde_json::to_string(&serde_json::json!({"summary": sum})).unwrap());
+                return 2;
+            }
+        };
         if let Some(h) = r.harness {
             sum.harness = Some(format!("run {i} ({wl}): {h}"));
             let mut o = stdout.lock();
@@ -200,11 +208,15 @@ pub fn replay_file(path: &str) -> Result<(Replay, Vec<Finding>), String> {
 }
 
 pub fn replay_findings(rp: &Replay) -> Vec<Finding> {
-    let rcfg = RunCfg { backends: vec![rp.backend], check_heap: rp.check_heap, hostile: rp.plan.is_hostile(), record_snaps: 0, ref_budget: 400_000 };
+    let backends = if rp.class == Class::Disagree { vec![Backend::Rv, Backend::X86, Backend::A64] } else { vec![rp.backend] };
+    let rcfg = RunCfg { backends, check_heap: rp.check_heap, hostile: rp.plan.is_hostile(), record_snaps: 0, ref_budget: 400_000 };
     let mut st = Stats::default();
     let mut rng = Rng::keyed(rp.verif_seed, rp.run, "plans");
     let keys = Rng::keyed(rp.verif_seed, rp.run, "hashkeys").next();
-    let r = workloads::run_fixed(&rp.scenario, &rcfg, &mut rng, keys, &mut st, &rp.plan);
+    let mut r = workloads::run_fixed(&rp.scenario, &rcfg, &mut rng, keys, &mut st, &rp.plan);
+    if rp.class == Class::Disagree {
+        workloads::three_way(&mut r, &rp.scenario);
+    }
     r.findings.into_iter().filter(|f| f.prop == rp.property && f.class == rp.class && f.backend == rp.backend).collect()
 }
 
